@@ -169,6 +169,12 @@ type c13Case struct {
 	// empty-blob-injecting decorator, as the configuration code does for every
 	// top-level CAS: digests of size zero are answered by that wrapper
 	EmptyInjecting bool
+	// ACOverwrite: the Action Cache entry is overwritten while the call is in
+	// progress - every read of it after the first one within a call sees a
+	// result with one more output file, which the CAS was never asked about.
+	// What the caller receives must still be a result whose references were
+	// all reported present during the call.
+	ACOverwrite bool
 
 	CASErrAt   int // index of the CAS call (FindMissing and Get counted together) that fails; -1 never
 	CASErrCode codes.Code
@@ -425,6 +431,7 @@ type c13AC struct {
 	want    string // key of the action digest
 	Gets    int
 	St      *sim.SrcStats
+	round   int // reads of the entry during the current call
 }
 
 func (m *c13AC) Get(ctx context.Context, d digest.Digest) buffer.Buffer {
@@ -436,6 +443,13 @@ func (m *c13AC) Get(ctx context.Context, d digest.Digest) buffer.Buffer {
 	}
 	cb := func(valid bool) {}
 	m.c.Note("ac Get -> %s", c13ACKindNames[m.cs.ACKind])
+	m.round++
+	if m.cs.ACOverwrite && m.round >= 2 && m.cs.ACKind != c13ACGarbage && (m.cs.ACKind == c13ACProto || m.cs.ACKind == c13ACSlice || m.cs.ACKind == c13ACReader) {
+		m.c.Count("probe_ac_entry_overwritten_mid_call", 1)
+		ar2 := proto.Clone(m.cs.AR).(*remoteexecution.ActionResult)
+		ar2.OutputFiles = append(ar2.OutputFiles, &remoteexecution.OutputFile{Path: "written-meanwhile", Digest: &remoteexecution.Digest{Hash: RefHash(m.cs.Fn, []byte("c13-written-meanwhile")), SizeBytes: 21}})
+		return buffer.NewProtoBufferFromProto(ar2, buffer.BackendProvided(cb))
+	}
 	switch m.cs.ACKind {
 	case c13ACProto:
 		return buffer.NewProtoBufferFromProto(proto.Clone(m.cs.AR), buffer.BackendProvided(cb))
@@ -669,7 +683,7 @@ func runC13Case(c *sim.RunCtx, cs *c13Case) *c13CAS {
 		}
 		for round := 0; round < rounds; round++ {
 			// (records of an earlier round are dropped: each call stands alone)
-			cas.FM, cas.Gets, cas.done, ac.St = nil, nil, false, nil
+			cas.FM, cas.Gets, cas.done, ac.St, ac.round = nil, nil, false, nil, 0
 			got, gotErr = nil, nil
 			var b buffer.Buffer
 			if cs.Composite {
